@@ -32,6 +32,7 @@ const (
 	lvCaseVariant          // a regular file "Spokfile" (different case): an ordinary other entry
 	lvCaseBoth             // "Spokfile" next to the real "spokfile"
 	lvSpokThenLater        // a regular spokfile, then (created after it) entries sorting after it
+	lvCacheDirOnly         // a .spok directory (left behind by an earlier spokfile) and other dot entries, no spokfile
 	nLevelCfg
 )
 
@@ -94,6 +95,14 @@ func (c FindCase) build(base string) error {
 				if err = w(d, "zz.txt"); err == nil {
 					if err = w(d, "tests.txt"); err == nil {
 						err = os.Mkdir(filepath.Join(d, "vendor"), 0o755)
+					}
+				}
+			}
+		case lvCacheDirOnly:
+			if err = os.MkdirAll(filepath.Join(d, ".spok"), 0o755); err == nil {
+				if err = w(filepath.Join(d, ".spok"), "cache.json"); err == nil {
+					if err = w(d, ".env"); err == nil {
+						err = os.MkdirAll(filepath.Join(d, ".git"), 0o755)
 					}
 				}
 			}
